@@ -174,6 +174,11 @@ AsyncPipe::Impl::~Impl()
 
 bool AsyncPipe::Impl::initialize(const Config &cfg)
 {
+    if (inited_) {
+        std::cerr << "Err: AsyncPipe::initialize() called again without cleanup()" << std::endl;
+        return false;
+    }
+
     if (cfg.buff_size == 0) {
         std::cerr << "Err: AsyncPipe::Config::buff_size == 0" << std::endl;
         return false;
